@@ -138,12 +138,13 @@ def gen_tlvs(rng):
         elif k < 0.92:
             tag = rng.choice(ostrs)
             size = smppref.TLV[tag][2]
-            s = rng.choice(['a', 'sub:addr', 'X' * 20, '\x03\x01\x02', '\x01'])
+            # octet strings are binary: network_error_code 03 00 A5, subaddresses start with 0x80 / 0x88 / 0xA0 ...
+            s = rng.choice(['a', 'sub:addr', 'X' * 20, '\x03\x01\x02', '\x01', '\x03\x00\xa5', '\x80sub', '\xa0\xff\x00\x7f\x80', '\xff'])
             if size:
                 s = (s * size)[:size]
             if rng.random() < 0.08:
                 s = s[:-1] + '\x00'                                # an octet string whose last octet is zero
-            out.append((tag, s.encode('ascii'), s))
+            out.append((tag, s.encode('latin_1'), s))
         else:
             out.append((0x130C, b'', True))
     return out
